@@ -158,6 +158,87 @@ def run(ctx: Ctx) -> None:
         else:
             rep.bad("C13.R3", f.qname, desc, f.loc(loop), witness_path(cfg, f, p), "skip-param", what="a parameter can be left out of the binding")
     rep.floor("C13.R2", n2, 6)
+
+    # ---- R4: a call seen in source is bound on its own argument nodes ---------------------------------------------
+    rep.rule("C13.R4", "the literal binder receives the argument nodes of the call itself; a name among them is replaced by a value of the module "
+                       "namespace only where the name was found not to be a local variable")
+    n4 = 0
+    for g in list(prog.funcs.values()):
+        for n in g.own_nodes():
+            if not (isinstance(n, ast.Call) and (prog.dotted(g, n.func) or "") == lit.qname):
+                continue
+            n4 += 1
+            desc = f"`{unparse(n, 60)}` binds the call's own argument nodes"
+            bad_item = None
+            for a in list(n.args[1:]) + [k.value for k in n.keywords]:
+                sl = ctx.slicer(follow_calls=True).slice(g, a)
+                for it in sl.find_all(lambda f_, x: f_.module.name == "dds._retrieve_objects"):
+                    # the function that consulted the resolver: last item of the chain outside the resolver module
+                    cur = it
+                    while cur is not None and cur.func.module.name == "dds._retrieve_objects":
+                        cur = cur.parent
+                    if cur is None:
+                        continue
+                    h = cur.func
+                    lookups = [c for c in h.own_nodes() if isinstance(c, ast.Call) and isinstance(c.func, ast.Attribute) and c.func.attr in ("retrieve_object", "retrieve_object_global")]
+                    guards = [b for b in cfg_of(h).nodes if b.kind == "branch" and isinstance(b.ast, ast.Compare) and len(b.ast.ops) == 1
+                              and "var_names" in unparse(b.ast.comparators[0])
+                              and ((isinstance(b.ast.ops[0], ast.In) and b.label == "F") or (isinstance(b.ast.ops[0], ast.NotIn) and b.label == "T"))]
+                    from .common import dominated
+                    if not lookups or not guards or any(dominated(ctx, h, c, guards) is not None for c in lookups):
+                        bad_item = it
+                        break
+                if bad_item is not None:
+                    break
+            if bad_item is None:
+                rep.ok("C13.R4", g.qname, desc, g.loc(n))
+            else:
+                rep.bad("C13.R4", g.qname, desc, g.loc(n), bad_item.chain() + [
+                    "an argument that is a Name is looked up in the module namespace without checking that it is not a parameter / local variable of the "
+                    "function being analysed: `def pipeline(batch): dds.keep(p, f, batch)` with a module constant `batch = 3` is keyed as f(3) for every value of batch"],
+                    stmt_key(n), what="a local variable passed to a kept call is hashed as the module constant of the same name")
+    rep.floor("C13.R4", n4, 1)
+
+    # ---- R5: a ** mapping at the call seen in source is an unknown binding, never "argument omitted" -----------------
+    rep.rule("C13.R5", "literal binder: the default value of a parameter is taken only under the outcome 'the call has no ** mapping' "
+                       "(the keyword table built from ast.keyword carries it under the key None)")
+    n5 = 0
+    lcfg = cfg_of(lit)
+    kw_param = lit.params[2] if len(lit.params) > 2 else "kwargs"
+    no_mapping = []
+    for b in lcfg.nodes:
+        if b.kind == "branch" and isinstance(b.ast, ast.Compare) and len(b.ast.ops) == 1 and isinstance(b.ast.left, ast.Constant) and b.ast.left.value is None \
+                and isinstance(b.ast.comparators[0], ast.Name) and b.ast.comparators[0].id == kw_param:
+            if (isinstance(b.ast.ops[0], ast.In) and b.label == "F") or (isinstance(b.ast.ops[0], ast.NotIn) and b.label == "T"):
+                no_mapping.append(b)
+    from .common import dominated as _dom
+    for n in lit.own_nodes():
+        if isinstance(n, ast.Attribute) and n.attr == "default" and isinstance(lit.module.parent.get(n), ast.Call):
+            call = lit.module.parent.get(n)
+            if not (isinstance(call.func, ast.Name) and "hash" in call.func.id):
+                continue
+            n5 += 1
+            desc = f"`{unparse(call, 40)}` (parameter omitted -> default) is reached only when the call has no ** mapping"
+            # (b) the call sites filter / reject the ** form themselves
+            sites_ok = True
+            for g in prog.funcs.values():
+                for c in g.own_nodes():
+                    if isinstance(c, ast.Call) and (prog.dotted(g, c.func) or "") == lit.qname:
+                        gcfg = cfg_of(g)
+                        gb = [b for b in gcfg.nodes if b.kind == "branch" and isinstance(b.ast, ast.Compare) and isinstance(b.ast.left, ast.Attribute) and b.ast.left.attr == "arg"
+                              and isinstance(b.ast.comparators[0], ast.Constant) and b.ast.comparators[0].value is None
+                              and ((isinstance(b.ast.ops[0], ast.Is) and b.label == "F") or (isinstance(b.ast.ops[0], ast.IsNot) and b.label == "T"))]
+                        if not gb or _dom(ctx, g, c, gb) is not None:
+                            sites_ok = False
+            w = _dom(ctx, lit, call, no_mapping) if no_mapping else ["no test of `None in " + kw_param + "` in the binder"]
+            if w is None or sites_ok:
+                rep.ok("C13.R5", lit.qname, desc, lit.loc(call))
+            else:
+                rep.bad("C13.R5", lit.qname, desc, lit.loc(call), w + [
+                    "`opts = {'a': 5}; dds.keep('/p', f, **opts)` with `def f(a=0, b=1)`: ast.keyword(arg=None) is not a parameter name, every parameter takes its "
+                    "default and the call is keyed as f(): a later direct `dds.keep('/p', f)` is served the blob computed with a=5"],
+                    "default-under-mapping", what="a kept call seen in source with a ** mapping is bound as if the arguments were omitted")
+    rep.floor("C13.R5", n5, 1)
     a, b = skeleton.get(rt.qname, {}), skeleton.get(lit.qname, {})
     desc = "both binders choose the value source in the order positional, keyword, default"
     if a.get("order") == b.get("order") == ["positional", "keyword", "default"]:
